@@ -485,6 +485,232 @@ theorem C16_constructor_value (vals : Nat → R) (a b : Arg R) {o : Obs R} :
 
 end ctor_value
 
+/-! ### Names and symbols (the keys under which `System` / `ObservableEvaluator` report a composite: C13, C17) -/
+
+section names
+set_option linter.unusedSectionVars false
+variable {α : Type} [Add α] [Mul α] [Neg α] [Sub α] [Zero α] [One α]
+
+/-- the builder that also carries the `name` / `symbol` strings (`buildN`: the constructors' `name=` / `symbol=`
+arguments, `__neg__`'s explicit strings, the reflected operators) is `build` plus strings — the same object or the
+same exception — and the strings are the specified function `exprText` of the expression tree. -/
+theorem buildN_spec (R : Render α) (ids : Nat → Ident) (e : Expr α) :
+    match buildN R ids e with
+    | .ok v => build e = .ok v.arg ∧ v.isScal = e.isScalar ∧ (∀ nm, v.text R nm = exprText R ids nm e)
+    | .error err => build e = .error err := by
+  induction e with
+  | leaf i =>
+    simp only [buildN, build, NArg.arg, NArg.isScal, Expr.isScalar, NArg.text, exprText, true_and]
+    intro nm; cases nm <;> first | rfl | trivial | simp
+  | const k c => simp [buildN, build, NArg.arg, NArg.isScal, Expr.isScalar, NArg.text, exprText]
+  | neg a ih =>
+    simp only [buildN, build]
+    cases ha : buildN R ids a with
+    | error err => rw [ha] at ih; simp only at ih ⊢; rw [ih]
+    | ok va =>
+      rw [ha] at ih
+      obtain ⟨hb, hs, ht⟩ := ih
+      simp only [hb]
+      have key := pyNegN_spec R va
+      cases hn : pyNegN R va with
+      | error err => rw [hn] at key; exact key
+      | ok w =>
+        rw [hn] at key
+        obtain ⟨k1, k2, k3, _⟩ := key
+        refine ⟨k1, by simp [Expr.isScalar, k2, hs], ?_⟩
+        intro nm
+        rw [k3 nm]
+        cases va with
+        | scal k c =>
+          have hsc : a.isScalar = true := by simpa [NArg.isScal] using hs.symm
+          simp only [NArg.arg] at hb k1
+          simp only [exprText, hsc, if_true, scalText, build, hb, k1]
+          cases w with
+          | scal k' c' =>
+            have h3 := k3 nm
+            simp only [NArg.text] at h3
+            rw [← h3]
+          | obs n => simp [NArg.isScal] at k2
+        | obs n =>
+          have hsc : a.isScalar = false := by simpa [NArg.isScal] using hs.symm
+          simp only [exprText, hsc, negText, ← ht nm, NArg.text]
+          simp
+  | add a b iha ihb =>
+    simp only [buildN, build]
+    cases ha : buildN R ids a with
+    | error err => rw [ha] at iha; simp only at iha ⊢; rw [iha]
+    | ok va =>
+      rw [ha] at iha
+      obtain ⟨hba, hsa, hta⟩ := iha
+      simp only [hba]
+      cases hb : buildN R ids b with
+      | error err => rw [hb] at ihb; simp only at ihb ⊢; rw [ihb]
+      | ok vb =>
+        rw [hb] at ihb
+        obtain ⟨hbb, hsb, htb⟩ := ihb
+        simp only [hbb]
+        have key := pyAddN_spec R va vb
+        cases hn : pyAddN R va vb with
+        | error err => rw [hn] at key; exact key
+        | ok v =>
+          rw [hn] at key
+          obtain ⟨k1, k2, k3⟩ := key
+          refine ⟨k1, by simp [Expr.isScalar, k2, hsa, hsb], ?_⟩
+          intro nm
+          cases hv : v.isScal with
+          | true =>
+            have hsc : (a.isScalar && b.isScalar) = true := by rw [← hsa, ← hsb, ← k2]; exact hv
+            cases v with
+            | scal k c =>
+              have k1' : pyAdd va.arg vb.arg = .ok (.scal k c) := k1
+              simp [exprText, hsc, scalText, build, hba, hbb, k1', NArg.text]
+            | obs n => simp [NArg.isScal] at hv
+          | false =>
+            have hsc : (a.isScalar && b.isScalar) = false := by rw [← hsa, ← hsb, ← k2]; exact hv
+            rw [k3 nm hv, hta nm, htb nm]
+            simp [exprText, hsc]
+  | sub a b iha ihb =>
+    simp only [buildN, build]
+    cases ha : buildN R ids a with
+    | error err => rw [ha] at iha; simp only at iha ⊢; rw [iha]
+    | ok va =>
+      rw [ha] at iha
+      obtain ⟨hba, hsa, hta⟩ := iha
+      simp only [hba]
+      cases hb : buildN R ids b with
+      | error err => rw [hb] at ihb; simp only at ihb ⊢; rw [ihb]
+      | ok vb =>
+        rw [hb] at ihb
+        obtain ⟨hbb, hsb, htb⟩ := ihb
+        simp only [hbb]
+        have key := pySubN_spec R va vb
+        cases hn : pySubN R va vb with
+        | error err => rw [hn] at key; exact key
+        | ok v =>
+          rw [hn] at key
+          obtain ⟨k1, k2, k3, k4⟩ := key
+          refine ⟨k1, by simp [Expr.isScalar, k2, hsa, hsb], ?_⟩
+          intro nm
+          cases hv : v.isScal with
+          | true =>
+            have hsc : (a.isScalar && b.isScalar) = true := by rw [← hsa, ← hsb, ← k2]; exact hv
+            cases v with
+            | scal k c =>
+              have k1' : pySub va.arg vb.arg = .ok (.scal k c) := k1
+              simp [exprText, hsc, scalText, build, hba, hbb, k1', NArg.text]
+            | obs n => simp [NArg.isScal] at hv
+          | false =>
+            have hsc : (a.isScalar && b.isScalar) = false := by rw [← hsa, ← hsb, ← k2]; exact hv
+            rw [k3 nm hv, hta nm]
+            cases vb with
+            | scal k c =>
+              have hbs : b.isScalar = true := by simpa [NArg.isScal] using hsb.symm
+              have hnum := k4 hv k c rfl
+              have has : a.isScalar = false := by simpa [hbs] using hsc
+              simp only [NArg.arg] at hbb
+              simp [exprText, has, hbs, negText, scalText, build, hbb, pyNeg, hnum]
+            | obs n =>
+              have hbs : b.isScalar = false := by simpa [NArg.isScal] using hsb.symm
+              have := htb nm
+              simp only [NArg.text] at this
+              simp [exprText, hbs, negText, this]
+  | mul a b iha ihb =>
+    simp only [buildN, build]
+    cases ha : buildN R ids a with
+    | error err => rw [ha] at iha; simp only at iha ⊢; rw [iha]
+    | ok va =>
+      rw [ha] at iha
+      obtain ⟨hba, hsa, hta⟩ := iha
+      simp only [hba]
+      cases hb : buildN R ids b with
+      | error err => rw [hb] at ihb; simp only at ihb ⊢; rw [ihb]
+      | ok vb =>
+        rw [hb] at ihb
+        obtain ⟨hbb, hsb, htb⟩ := ihb
+        simp only [hbb]
+        have key := pyMulN_spec R va vb
+        cases hn : pyMulN R va vb with
+        | error err => rw [hn] at key; exact key
+        | ok v =>
+          rw [hn] at key
+          obtain ⟨k1, k2, k3⟩ := key
+          refine ⟨k1, by simp [Expr.isScalar, k2, hsa, hsb], ?_⟩
+          intro nm
+          cases hv : v.isScal with
+          | true =>
+            have hsc : (a.isScalar && b.isScalar) = true := by rw [← hsa, ← hsb, ← k2]; exact hv
+            cases v with
+            | scal k c =>
+              have k1' : pyMul va.arg vb.arg = .ok (.scal k c) := k1
+              simp [exprText, hsc, scalText, build, hba, hbb, k1', NArg.text]
+            | obs n => simp [NArg.isScal] at hv
+          | false =>
+            have hsc : (a.isScalar && b.isScalar) = false := by rw [← hsa, ← hsb, ← k2]; exact hv
+            rw [k3 nm hv, hta nm, htb nm, hsa]
+            simp [exprText, hsc]
+
+/-- **C16 names** — the object `buildN` returns is the object `build` returns (same structure, or the same
+exception), so every C16 theorem about `build` speaks about the named object. -/
+theorem C16_named_build_is_build (R : Render α) (ids : Nat → Ident) (e : Expr α) :
+    (match buildN R ids e with
+      | .ok v => Except.ok v.arg
+      | .error err => .error err) = build e := by
+  have := buildN_spec R ids e
+  cases h : buildN R ids e with
+  | error err => rw [h] at this; exact this.symm
+  | ok v => rw [h] at this; exact this.1.symm
+
+/-- **C16 names** — the `name` (and the `symbol`) of the observable built from an expression is the stated function
+`exprText` of the expression tree: leaves read as their own name (class name by default, the string given through the
+setter otherwise), scalar sub-expressions as Python prints their folded value, `-e` as `-E`, `a + b` as `(A + B)`,
+`a - b` as `(A + -B)`, and a product as `(c * E)` with the scalar FIRST on whichever side it was written. For every
+expression tree, by structural induction through the operator overloads, the reflected operators, `__neg__`'s
+explicit strings and the two constructors' default strings. -/
+theorem C16_name_of_build (R : Render α) (ids : Nat → Ident) (e : Expr α) (n : NObs α)
+    (h : buildN R ids e = .ok (.obs n)) :
+    n.name = exprText R ids true e ∧ n.symbol = exprText R ids false e ∧ build e = .ok (.obs n.o) := by
+  have := buildN_spec R ids e
+  rw [h] at this
+  obtain ⟨h1, _, h3⟩ := this
+  exact ⟨by simpa [NArg.text] using h3 true, by simpa [NArg.text] using h3 false, h1⟩
+
+/-- consequence: the two ways of writing a scalar multiple have the SAME name (`System` merges them: harmless, they
+are the same observable), whereas `-e` and `(-1) * e` — the same values — have different names. -/
+theorem C16_name_prod_side (R : Render α) (ids : Nat → Ident) (k : Kind) (c : α) (i : Nat) :
+    exprText R ids true (.mul (.const k c) (.leaf i)) = exprText R ids true (.mul (.leaf i) (.const k c)) := by
+  simp [exprText, Expr.isScalar]
+
+end names
+
+/-- the names of a list of built observables are the texts of their expressions -/
+theorem C16_names_of_built {α : Type} [Add α] [Mul α] [Neg α] [Sub α] [Zero α] [One α]
+    (R : Render α) (ids : Nat → Ident) :
+    ∀ (es : List (Expr α)) (ns : List (NObs α)),
+      List.Forall₂ (fun e n => buildN R ids e = .ok (.obs n)) es ns → ns.map (·.name) = es.map (exprText R ids true)
+  | _, _, .nil => rfl
+  | _, _, .cons h1 h2 => by
+    simp only [List.map_cons]
+    rw [(C16_name_of_build R ids _ _ h1).1, C16_names_of_built R ids _ _ h2]
+
+/-- **names as dictionary keys (C13)** — observables built from the expressions `es` and handed to `System`: the keys
+of the dictionary `System.statistics` returns are the texts `exprText … e` of the expressions, each once, in order of
+first occurrence. Two built observables are therefore reported separately iff their expressions READ differently
+(`2 * X` and `X * 2` read the same and are the same observable; two leaves of one class with different options read the
+same and are NOT the same observable — known finding F19). -/
+theorem C16_system_keys_of_built {σ : Type} (env : Stats.Env σ) (R : Render ℝ) (ids : Nat → Ident)
+    (es : List (Expr ℝ)) (ns : List (NObs ℝ)) (hb : List.Forall₂ (fun e n => buildN R ids e = .ok (.obs n)) es ns)
+    (vals : NObs ℝ → σ → List ℝ) (a : Stats.Args σ) (hne : ∀ n ∈ ns, ∀ st, vals n st ≠ [])
+    (r : List (String × Stats.Stat ℝ) × List (Stats.SampleCall σ))
+    (h : Stats.systemStatistics env (ns.map (fun n => (n.name, vals n))) a = .ok r) :
+    r.1.map (·.1) = Stats.firstOcc (es.map (exprText R ids true)) := by
+  have key := C13_system_keys_of_names env (ns.map (fun n => (n.name, vals n))) a
+    (by
+      intro o ho st
+      obtain ⟨n, hn, rfl⟩ := List.mem_map.mp ho
+      exact hne n hn st) r h
+  rw [key, List.map_map, ← C16_names_of_built R ids es ns hb]
+  rfl
+
 /-! ### Non-vacuity -/
 
 /-- `-O₀ - 3*O₁ + 1` (the expression of the repository's smoke test) builds, to the nested
@@ -516,6 +742,14 @@ example : build (α := ℤ) (.add (.mul (.leaf 0) (.leaf 1)) (.const .bad 0)) = 
 example : build (α := ℤ) (.mul (.add (.leaf 0) (.const .bad 0)) (.leaf 1)) = .error .TypeError := by rfl
 example : Linear (α := ℤ) (.mul (.const .float 2) (.sub (.leaf 0) (.const .int 1))) :=
   .mul (.const _ _) (.sub (.leaf 0) (.const _ _) rfl rfl) rfl rfl rfl
+
+/-- names: `-O₀ - 3*O₁ + 1` with leaves named `SigmaX` (built-in constant) and a user class with default name -/
+example : (match buildN (α := ℤ) ⟨fun _ c => toString c, fun _ c => toString c⟩
+      (fun i => if i = 0 then ⟨"SigmaX", some "SigmaX", some "X"⟩ else ⟨"MyObs", none, none⟩)
+      (.add (.sub (.neg (.leaf 0)) (.mul (.leaf 1) (.const .int 3))) (.const .int 1)) with
+    | .ok (.obs n) => (n.name, n.symbol)
+    | _ => ("", "")) = ("((-SigmaX + -(3 * MyObs)) + 1)", "((-X + -(3 * MyObs)) + 1)") := by decide
+
 
 end C16
 end QV.Props
